@@ -331,7 +331,10 @@ def handle (args : List String) : String :=
       match valOf v with
       | some v =>
         match encodeRoot σ v with
-        | .val j => showRes (decodeRoot σ j)
+        | .val j =>
+          -- answer in canonical form is the decoded value itself; the harness sends the Go tree
+          -- with recovered positions cleared and empty slices nil
+          showRes (decodeRoot σ j)
         | .panic => "encode-panic"
       | none => "bad-op"
     | _ => "bad-op"
